@@ -1,14 +1,59 @@
 /-
   Props/C08.lean — compact and full outputs describe the same tensor. PROPERTY THEOREMS ONLY.
+  The full tensor is `compact[decompr_idx] / …`: entry (atoms, cart) of the full array reads the compact
+  (class-space) array at `atomicDecompr[flat atoms] · 3ⁿ + flat cart` (`latTransDecompr`).
 -/
 import SymfcModel.Model.Inst
+import SymfcModel.Lemmas.Cell
 namespace Symfc.C08
-open Symfc
+open Symfc Symfc.Cell
 
 /-- the element index used by the permutation stage is row-major over (atom tuple | Cartesian tuple):
     strides N^(n-1-p) and 3^(n-1-p) at position p, for every order -/
 theorem element_index_is_row_major :
     Gen.idxStridesO2 = [(1, 3), (0, 1)] ∧ Gen.idxStridesO3 = [(2, 9), (1, 3), (0, 1)] ∧
     Gen.idxStridesO4 = [(3, 27), (2, 9), (1, 3), (0, 1)] := by decide
+
+/-- C08.a: the class index of a tuple whose FIRST atom is the m-th independent atom (p2s_map[m]) is
+    `m·N^(n−1) + flat(rest)`: block `m` of the compact array IS the slice `full[p2s_map[m], …]` — compact equals the
+    full tensor restricted to the independent atoms, in that order, for every order n ≥ 1 and every well-formed cell. -/
+theorem compact_block_m_is_full_restricted_to_p2s_m (c : Cell) (hwf : c.wf = true) (n : Nat) (hn : 1 ≤ n)
+    (m : Nat) (hm : m < c.indepAtoms.length) (rest : List Nat) (hlen : rest.length = n - 1)
+    (hlt : ∀ x, x ∈ rest → x < c.N) :
+    (c.atomicDecompr n).getD (flat c.N (c.indepAtoms[m] :: rest)) 0 = m * c.N ^ (n - 1) + flat c.N rest :=
+  atomicDecompr_compact c hwf n hn m hm rest hlen hlt
+
+/-- C08.b: the full tensor is recovered from the compact one BY LATTICE TRANSLATIONS: translating every atom of a
+    tuple by the same lattice translation does not change which compact entry is read … -/
+theorem full_tensor_is_translation_invariant (c : Cell) (hwf : c.wf = true) (n : Nat) (hn : 1 ≤ n)
+    (atoms : List Nat) (hlen : atoms.length = n) (hlt : ∀ x, x ∈ atoms → x < c.N) (l : Nat) (hl : l < c.nlp) :
+    (c.atomicDecompr n).getD (flat c.N (atoms.map (c.img l))) 0 = (c.atomicDecompr n).getD (flat c.N atoms) 0 :=
+  atomicDecompr_translate c hwf n hn atoms hlen hlt l hl
+
+/-- … and two tuples read the same compact entry ONLY IF they are lattice translates of each other (no two
+    inequivalent elements are merged), every compact entry is read by exactly `n_lp` tuples, and the compact array has
+    `n_a · N^(n−1) = Nⁿ / n_lp` atom blocks. -/
+theorem classes_are_exactly_translation_orbits (c : Cell) (hwf : c.wf = true) (n : Nat) (hn : 1 ≤ n)
+    (a b : List Nat) (halen : a.length = n) (halt : ∀ x, x ∈ a → x < c.N)
+    (hblen : b.length = n) (hblt : ∀ x, x ∈ b → x < c.N) :
+    ((c.atomicDecompr n).getD (flat c.N a) 0 = (c.atomicDecompr n).getD (flat c.N b) 0 ↔
+      ∃ l, l < c.nlp ∧ b = a.map (c.img l)) ∧
+    (c.atomicDecompr n).getD (flat c.N a) 0 < c.indepAtoms.length * c.N ^ (n - 1) ∧
+    c.indepAtoms.length * c.N ^ (n - 1) = c.N ^ n / c.nlp :=
+  ⟨atomicDecompr_eq_iff c hwf n hn a b halen halt hblen hblt, atomicDecompr_lt c hwf n hn a halen halt,
+   num_classes_eq c hwf n hn⟩
+
+/-- the closed-form class index used in the specification agrees with the loop-built array of the code's model -/
+theorem closed_form_class_index (c : Cell) (hwf : c.wf = true) (n : Nat) (hn : 1 ≤ n)
+    (atoms : List Nat) (hlen : atoms.length = n) (hlt : ∀ x, x ∈ atoms → x < c.N) :
+    classIdx c atoms = some ((c.atomicDecompr n).getD (flat c.N atoms) 0) :=
+  classIdx_eq c hwf n hn atoms hlen hlt
+
+/-- element level: entry `t = flat(atoms)·3ⁿ + cart` of `get_lat_trans_decompr_indices*` is the class of the atoms
+    times 3ⁿ plus the SAME Cartesian offset: Cartesian components are never mixed by compression. -/
+theorem element_decompr_keeps_cartesian (c : Cell) (n t : Nat) (ht : t < c.N ^ n * 3 ^ n) :
+    (c.latTransDecompr n).getD t 0 = (c.atomicDecompr n).getD (t / 3 ^ n) 0 * 3 ^ n + t % 3 ^ n := by
+  unfold latTransDecompr
+  simp [Array.getD, ht]
 
 end Symfc.C08
